@@ -33,6 +33,53 @@ pub fn run(ctx: &Ctx) -> Result<()> {
 	col.finish()
 }
 
+/// tar archives and directory trees with zero-length tile members - inside, at the edge of and beyond the box of the other
+/// members, and alone on a level: whatever a lookup returns for a member's coordinate must lie inside the advertised coverage,
+/// and a stream over the level must deliver exactly what the lookups return
+fn empty_members(ctx: &Ctx, rt: &tokio::runtime::Runtime, dir: &std::path::Path, viol: &mut Vec<V>, stats: &mut BTreeMap<String, u64>) -> Result<()> {
+	let mut rng = Rng::new(ctx.seed ^ 0xE0C16);
+	for i in 0..(if ctx.thorough { 40 } else { 8 }) {
+		let mut tiles: indep::TileMap = indep::TileMap::new();
+		let z = *rng.pick(&[2u8, 3, 5]); let m = (1u32 << z) - 1;
+		let (x0, y0) = (1 + rng.below(2) as u32, 1 + rng.below(2) as u32);
+		for x in x0..=(x0 + 1).min(m) { for y in y0..=(y0 + 1).min(m) { tiles.insert((z, x, y), rng.bytes(20)); } }
+		// zero-length members: beyond the box (east / south), inside it, and alone on another level
+		let outside = (z, (x0 + 2 + rng.below(2) as u32).min(m), (y0 + 2).min(m));
+		for c in [outside, (z, x0, y0 + 1), (z - 1, 0, 0), (z, 0, 0)] { if rng.chance(3, 4) || c == outside { tiles.insert(c, vec![]); } }
+		for container in ["tar", "dir"] {
+			let path = if container == "dir" { dir.join(format!("em{}_{i}_d", ctx.seed)) } else { dir.join(format!("em{}_{i}.tar", ctx.seed)) };
+			if container == "tar" { std::fs::write(&path, indep::enc_tar(&tiles, ".png", b"{}", &mut rng))?; } else { let _ = std::fs::remove_dir_all(&path); indep::enc_directory(&path, &tiles, ".png")?; }
+			let desc = format!("independently encoded {container} with zero-length members {:?}", { let mut e: Vec<_> = tiles.iter().filter(|(_, d)| d.is_empty()).map(|(c, _)| *c).collect(); e.sort(); e });
+			*stats.entry("empty_member_files".into()).or_insert(0) += 1;
+			let reader = match guarded(|| rt.block_on(get_reader(path.to_str().unwrap()))) { Ok(Ok(r)) => r, other => { viol.push(V { kind: "open-error".into(), input: desc, detail: format!("{:?}", other.map(|r| r.map(|_| ()).map_err(|e| format!("{e:#}")))) }); continue; } };
+			let cov = reader.get_parameters().bbox_pyramid.clone();
+			for ((tz, x, y), d) in &tiles {
+				let got = guarded(|| rt.block_on(reader.get_tile_data(&TileCoord3 { x: *x, y: *y, z: *tz })));
+				match got {
+					Ok(Ok(Some(b))) => {
+						if b.as_slice() != d.as_slice() { viol.push(V { kind: "lookup".into(), input: desc.clone(), detail: format!("member {tz}/{x}/{y}: other bytes than encoded") }); }
+						if !cov.get_level_bbox(*tz).contains2(&TileCoord2::new(*x, *y)) { viol.push(V { kind: "coverage-misses-tile".into(), input: desc.clone(), detail: format!("the reader returns a tile ({} bytes) at {tz}/{x}/{y}, but the advertised coverage of level {tz} is {:?}", b.len(), cov.get_level_bbox(*tz)) }); }
+					}
+					Ok(Ok(None)) => if !d.is_empty() { viol.push(V { kind: "lookup".into(), input: desc.clone(), detail: format!("member {tz}/{x}/{y} is not returned") }); },
+					other => viol.push(V { kind: "lookup".into(), input: desc.clone(), detail: format!("member {tz}/{x}/{y}: {:?}", other.map(|r| r.map(|o| o.map(|b| b.len())).map_err(|e| format!("{e:#}")))) }),
+				}
+			}
+			// stream over the whole level = lookups
+			for lz in [z, z - 1] {
+				let full = TileBBox::new_full(lz)?; let f2 = full.clone();
+				let Ok(items) = guarded(|| rt.block_on(async { reader.get_bbox_tile_stream(f2).await.collect().await })) else { viol.push(V { kind: "stream".into(), input: desc.clone(), detail: format!("stream over level {lz} panicked") }); continue; };
+				let mut got: Vec<(u32, u32, u64)> = items.iter().map(|(c, b)| (c.x, c.y, b.len())).collect(); got.sort();
+				let mut exp: Vec<(u32, u32, u64)> = Vec::new();
+				for c in full.iter_coords() { if let Ok(Ok(Some(b))) = guarded(|| rt.block_on(reader.get_tile_data(&c))) { exp.push((c.x, c.y, b.len())); } }
+				exp.sort();
+				if got != exp { viol.push(V { kind: "stream".into(), input: desc.clone(), detail: format!("stream over level {lz} delivers (x, y, bytes) {got:?}, lookups give {exp:?}") }); }
+			}
+			if container == "dir" { let _ = std::fs::remove_dir_all(&path); } else { let _ = std::fs::remove_file(&path); }
+		}
+	}
+	Ok(())
+}
+
 pub fn run_into(ctx: &Ctx, col: &mut Collector, with_lines: bool) -> Result<()> {
 	let rt = tokio::runtime::Builder::new_multi_thread().worker_threads(4).enable_all().build()?;
 	let dir = std::fs::canonicalize(&ctx.out)?.join("files16");
@@ -41,6 +88,7 @@ pub fn run_into(ctx: &Ctx, col: &mut Collector, with_lines: bool) -> Result<()> 
 	let mut rng = Rng::new(ctx.seed ^ 0xC16);
 	let mut viol: Vec<V> = vec![];
 	let mut stats: BTreeMap<String, u64> = BTreeMap::new();
+	empty_members(ctx, &rt, &dir, &mut viol, &mut stats)?;
 	let n = if ctx.thorough { 150 } else { 18 };
 	for i in 0..n {
 		let tiles: indep::TileMap = if i % 2 == 0 { run_sets(&mut rng, i) } else { gen_tiles_shape(&mut rng, false, (i as u64 / 2) % 7).into_iter().filter(|(_, d)| !d.is_empty()).collect() };
